@@ -38,6 +38,8 @@ pub struct StressCase {
     pub threads: Vec<Vec<(u8, u16)>>,
     /// (thread, lock acquisition index, microseconds)
     pub delay: Option<(u8, u32, u32)>,
+    /// (thread, lock release index, microseconds): that thread keeps one lock for a long time
+    pub hold: Option<(u8, u32, u32)>,
 }
 
 fn candidates(focus: StressFocus) -> Vec<u32> {
@@ -98,7 +100,9 @@ pub fn decode(bytes: &[u8], focus: StressFocus, tier: Tier) -> StressCase {
         }
     }
     let delay = if d.chance(1, 2) { Some((d.choose(nt) as u8, 1 + d.choose(40) as u32, [50u32, 300, 1500][d.choose(3)])) } else { None };
-    StressCase { fn_id, prefix, threads, delay }
+    // now and then one thread sits on a lock for 120 ms (timed lock attempts elsewhere time out)
+    let hold = if d.chance(1, 12) { Some((d.choose(nt) as u8, 1 + d.choose(60) as u32, 120_000u32)) } else { None };
+    StressCase { fn_id, prefix, threads, delay, hold }
 }
 
 pub fn describe(bytes: &[u8], focus: StressFocus, tier: Tier) -> Value {
@@ -171,12 +175,16 @@ fn run_once(case: &StressCase, d: &'static FnDesc, scripted: bool) -> Option<Run
         let seq = seq.clone();
         let barrier = barrier.clone();
         let delay = case.delay.filter(|(dt, _, _)| *dt as usize == t);
+        let hold = case.hold.filter(|(dt, _, _)| *dt as usize == t);
         hs.push(std::thread::spawn(move || {
             let corpus = static_corpus();
             let mut recs = Vec::new();
             barrier.wait();
             if let Some((_, after, us)) = delay {
                 vsched::set_delay(after, us);
+            }
+            if let Some((_, after, us)) = hold {
+                vsched::set_hold(after, us);
             }
             let mut i = 0usize;
             for (k, n) in bursts {
@@ -195,6 +203,7 @@ fn run_once(case: &StressCase, d: &'static FnDesc, scripted: bool) -> Option<Run
                 }
             }
             vsched::clear_delay();
+            vsched::clear_hold();
             Some(recs)
         }));
     }
